@@ -200,4 +200,58 @@ theorem stages_noObfuscate_set (cfg : Cfg) (c1 c2 : Call) (hr : c1.noRedact = c2
     rw [Bool.eq_iff_iff]; simp [hn]
   rw [this]
 
+/-! ### numbering of substitutes: a list, never a set
+
+Which of several NEW items of one line becomes `10.230.230.N` / `host<N>` is fixed by the order of the LIST the
+recogniser returned (IPv4: longest first, ties in order of occurrence; host names: order of occurrence, then the
+system's own name): `addNew` appends the not-yet-known items one by one, the first occurrence deciding.  The
+keys are consecutive (`range'`, `hostKeys`), so the i-th new item gets the i-th next number — whatever the
+hash seed.  The correspondence compares exactly this numbering with the implementation under every seed. -/
+
+theorem ip_numbering_first_occurrence (E : Env) (cfg : Cfg) (st : St) (line : Str) (h : Inv E cfg st) :
+    (ipStage E st line).1.ipDb.map Prod.snd =
+      addNew (st.ipDb.map Prod.snd)
+        (((sortByLenDesc (E.findIp line)).filter (fun ip => !ipIgnore.contains ip)).map ip2int) ∧
+    (ipStage E st line).1.ipDb.map Prod.fst = List.range' startIp (ipStage E st line).1.ipDb.length :=
+  ⟨ipFold_vals E cfg _ (st, line) h, ((ipStage_pres E cfg st line) h).1.ipKeys⟩
+
+theorem host_numbering_first_occurrence (E : Env) (cfg : Cfg) (hE : HexDigest E) (st : St) (line : Str)
+    (h : Inv E cfg st) :
+    (hostStage E cfg st line).1.hnDb.map Prod.snd =
+      addNew (st.hnDb.map Prod.snd) ((if (domainOf cfg).isSome then E.findHost line else []) ++ [cfg.fqdn]) ∧
+    (hostStage E cfg st line).1.hnDb.map Prod.fst = hostKeys E cfg (hostStage E cfg st line).1.hnCount := by
+  refine ⟨?_, ((hostStage_pres E cfg hE st line) h).1.hnKeys⟩
+  have happ : ∀ (v a b : List Str), addNew v (a ++ b) = addNew (addNew v a) b := by
+    intro v a b; simp [addNew, List.foldl_append]
+  rw [happ]
+  unfold hostStage
+  simp only
+  have hinner : ∀ sl : St × Str, Inv E cfg sl.1 →
+      (hn2db cfg sl.1 cfg.fqdn).1.hnDb.map Prod.snd = addNew (sl.1.hnDb.map Prod.snd) [cfg.fqdn] := by
+    intro sl hi
+    rw [hostStep_vals E cfg hE sl.1 cfg.fqdn hi]
+    simp only [addNew, List.foldl_cons, List.foldl_nil]
+    congr
+  unfold dnDb
+  cases hd : domainOf cfg with
+  | none =>
+    simp only [List.foldl_nil, Option.isSome_none]
+    rw [hinner (st, line) h]; rfl
+  | some d =>
+    simp only [List.foldl_cons, List.foldl_nil, Option.isSome_some, if_true]
+    have hi2 := (foldl_pres E cfg (fun sl : St × Str => sl.1) (hostStep cfg)
+      (fun sl x => hostStep_pres E cfg hE sl x) (E.findHost line) (st, line) h).1
+    rw [hinner _ hi2, hostFold_vals E cfg hE _ (st, line) h]
+
+/-- two new host names and two new addresses on one line: numbered in list order -/
+example :
+    let E : Env := ⟨fun _ => ["9.9.9.9".toList, "1.2.3.4".toList], fun _ => ["www.db.d".toList, "db.d".toList],
+      fun _ => [], fun _ => false, fun _ => [], fun _ => false, fun _ => "0123456789ab".toList, id, {}⟩
+    let cfg : Cfg := ⟨"h.d".toList, true, false, true, false, [], []⟩
+    let st := (cleanContent E cfg (initSt E cfg) ⟨[], false, none, ["x".toList]⟩).1
+    hostMapping st = [("h.d".toList, "0123456789ab.example.com".toList), ("www.db.d".toList, "host2.example.com".toList),
+      ("db.d".toList, "host3.example.com".toList)] ∧
+    ipMapping st = [("9.9.9.9".toList, "10.230.230.1".toList), ("1.2.3.4".toList, "10.230.230.2".toList)] := by
+  decide
+
 end IV.CleanState
